@@ -30,14 +30,16 @@ open TapkeeVerif TapkeeVerif.Laplacian TapkeeVerif.Diffusion Matrix
 section laplacian
 variable {K : Type} [Field K] {N k : Nat}
 
-/-- both routines evaluate `exp` at `−d²/width`: the width **divides** -/
+/-- (definitional: holds by unfolding the transcribed model)
+    both routines evaluate `exp` at `−d²/width`: the width **divides** -/
 theorem heat_argument (dist w : K) :
     Laplacian.heatArg dist w = -(dist ^ 2) / w ∧ Diffusion.heatArg dist w = -(dist ^ 2) / w := by
   constructor
   · simp only [Laplacian.heatArg]; ring
   · simp only [Diffusion.heatArg]; ring
 
-/-- the heat value of sample `i` and its `a`-th neighbour -/
+/-- (definitional: holds by unfolding the transcribed model)
+    the heat value of sample `i` and its `a`-th neighbour -/
 theorem heats_eq (heat : K → K) (dist : Mat N N K) (w : K) (nb : Fin N → Fin k → Fin N) (i : Fin N) (a : Fin k) :
     heats heat dist w nb i a = heat (-(dist i (nb i a)) ^ 2 / w) := by
   simp only [heats, heatsD, DMat.get_ofFn, (heat_argument _ _).1]
@@ -59,7 +61,8 @@ theorem laplacianLD_get (nb : Fin N → Fin k → Fin N) (h : Mat N k K) : (lapl
 theorem degreesD_get (nb : Fin N → Fin k → Fin N) (h : Mat N k K) : (degreesD nb h).get = degrees nb h :=
   Laplacian.degreesD_get nb h
 
-/-- what `compute_laplacian` returns -/
+/-- (definitional: holds by unfolding the transcribed model)
+    what `compute_laplacian` returns -/
 theorem computeLaplacian_eq (heat : K → K) (dist : Mat N N K) (w : K) (nb : Fin N → Fin k → Fin N) :
     computeLaplacian heat dist w nb
       = (laplacianL nb (fun i a => heat (-(dist i (nb i a)) ^ 2 / w)),
@@ -129,7 +132,8 @@ example : (laplacianLD exNb exH).get 0 0 = 31 / 12 := by decide +kernel
 section diffusion
 variable {K : Type} [Field K] {N : Nat}
 
-/-- the abbreviations used below are exactly these model terms -/
+/-- (definitional: holds by unfolding the transcribed model)
+    the abbreviations used below are exactly these model terms -/
 theorem diffusion_abbreviations (heat sqrtO : K → K) (dist : Mat N N K) (w : K) :
     kernel1 heat dist w = normBy (kernel0 heat dist w) (colSums (kernel0 heat dist w))
     ∧ qVec heat dist w = colSums (kernel1 heat dist w)
@@ -137,7 +141,8 @@ theorem diffusion_abbreviations (heat sqrtO : K → K) (dist : Mat N N K) (w : K
     ∧ markov heat dist w = (fun i j => kernel1 heat dist w i j / qVec heat dist w i) :=
   ⟨rfl, rfl, rfl, rfl⟩
 
-/-- `compute_diffusion_matrix` returns `Q^{-1/2} (P⁻¹ K0 P⁻¹) Q^{-1/2}` -/
+/-- (definitional: holds by unfolding the transcribed model)
+    `compute_diffusion_matrix` returns `Q^{-1/2} (P⁻¹ K0 P⁻¹) Q^{-1/2}` -/
 theorem diffusion_is_normalised_operator (heat sqrtO : K → K) (dist : Mat N N K) (w : K) :
     diffusionMatrix heat sqrtO dist w
       = normBy (normBy (kernel0 heat dist w) (colSums (kernel0 heat dist w)))
@@ -225,13 +230,15 @@ variable {K : Type} [Field K] {N d : Nat}
 
 theorem npowK_eq_pow (x : K) (t : Nat) : npowK x t = x ^ t := npowK_eq_pow' x t
 
-/-- `dmPost = λ_c^t ψ_c(i) / ψ_0(i)` with `ψ = V / s` (for `s = √q`: the right eigenvectors of the diffusion operator) -/
+/-- (definitional: holds by unfolding the transcribed model)
+    `dmPost = λ_c^t ψ_c(i) / ψ_0(i)` with `ψ = V / s` (for `s = √q`: the right eigenvectors of the diffusion operator) -/
 theorem dm_coordinates (V : Mat N (d + 1) K) (lam : Vec (d + 1) K) (t : Nat) (s : Vec N K) (hs : ∀ i, s i ≠ 0)
     (i : Fin N) (c : Fin d) :
     dmPost V lam t i c = lam c.castSucc ^ t * ((V i c.castSucc / s i) / (V i (Fin.last d) / s i)) :=
   dmPost_coordinates V lam t s hs i c
 
-/-- `timesteps` enters only as the exponent of the eigenvalue of the same column -/
+/-- (definitional: holds by unfolding the transcribed model)
+    `timesteps` enters only as the exponent of the eigenvalue of the same column -/
 theorem dm_timesteps_only_exponent (V : Mat N (d + 1) K) (lam : Vec (d + 1) K) (t : Nat) (i : Fin N) (c : Fin d) :
     dmPost V lam t i c = dmPost V lam 0 i c * lam c.castSucc ^ t :=
   dmPost_timesteps V lam t i c
@@ -344,6 +351,68 @@ theorem skipped_eigenvector_is_constant {n : Nat} (hn : 0 < n) (L V : Matrix (Fi
   exact ⟨κ, hκ, fun i => by rw [hV i, mul_one]⟩
 
 end Spectral
+
+/-! ## Diffusion Map solves its spectral problem (analogue of `le_solution`)
+
+`T = diffusionMatrix heat sqrtO dist w` (the model matrix), the sqrt contract `s i * s i = q i`, `s i ≠ 0`, and the
+eigensolver contract: `(Vf, lam)` a full orthonormal ascending eigensystem of `T` (`GenEigSystem T 1 Vf lam`).
+`topIdx hd c = N−d−1+c` are the indices of the `d+1` largest eigenvalues, i.e. the columns
+`eigendecomposition(LargestEigenvalues, d+1)` returns (ascending, so the trivial pair is last). -/
+section DiffusionSolution
+open TapkeeVerif.SpectralLocal
+variable {K : Type} [Field K] [LinearOrder K] [IsStrictOrderedRing K] {N d : Nat}
+
+/-- **Diffusion Map returns `λ_c^t ψ_c / ψ_0` for the `d` leading non-trivial eigenpairs of the diffusion operator.**
+    If the top eigenvalue `1` of `T` is simple, then there is `κ ≠ 0` with
+    (i)   the last column of `Vf` is `κ √q` (the trivial eigenvector) and its eigenvalue is `1`;
+    (ii)  the returned coordinates are `dmPost V lamV t i c = lamV_c^t · ψ_c(i) / κ` with `ψ_c = V_c / √q` and `ψ_0 = κ`;
+    (iii) every `ψ_c` is a right eigenvector of the row-stochastic operator `P = Q⁻¹ K1` (`markov`) for `lamV_c`;
+    (iv)  the selected eigenvalues are the `d` largest below the trivial one: every eigenvalue outside the selected
+          block is `≤` every selected one, and all eigenvalues are `≤ 1`. -/
+theorem dm_solution (heat sqrtO : K → K) (dist : Mat N N K) (w : K)
+    (hs : ∀ i, sqrtO (qVec heat dist w i) * sqrtO (qVec heat dist w i) = qVec heat dist w i)
+    (hs0 : ∀ i, sqrtO (qVec heat dist w i) ≠ 0)
+    (hd : d + 1 ≤ N) (Vf : Matrix (Fin N) (Fin N) K) (lam : Fin N → K)
+    (h : GenEigSystem (Mat.toM (diffusionMatrix heat sqrtO dist w)) 1 Vf lam)
+    (hsimple : ∀ j : Fin N, j.1 ≠ N - 1 → lam j ≠ 1) (t : Nat) :
+    ∃ κ : K, κ ≠ 0 ∧
+      (∀ i, Vf i (topIdx hd (Fin.last d)) = κ * sVec heat sqrtO dist w i) ∧
+      lam (topIdx hd (Fin.last d)) = 1 ∧
+      (∀ (i : Fin N) (c : Fin d),
+        dmPost (cols Vf (topIdx hd)) (fun c => lam (topIdx hd c)) t i c
+          = lam (topIdx hd c.castSucc) ^ t * (Vf i (topIdx hd c.castSucc) / sVec heat sqrtO dist w i) / κ) ∧
+      (∀ c : Fin d,
+        (markov heat dist w).mulVec (fun i => Vf i (topIdx hd c.castSucc) / sVec heat sqrtO dist w i)
+          = lam (topIdx hd c.castSucc) • (fun i => Vf i (topIdx hd c.castSucc) / sVec heat sqrtO dist w i)) ∧
+      (∀ j : Fin N, j.1 < N - (d + 1) → ∀ c, lam j ≤ lam (topIdx hd c)) ∧
+      (∀ j : Fin N, lam j ≤ 1) :=
+  dm_solution' heat sqrtO dist w hs hs0 hd Vf lam h hsimple t
+
+/-- the selected indices are `N−d−1, …, N−1` -/
+theorem dm_solution_indices (hd : d + 1 ≤ N) (c : Fin (d + 1)) : (topIdx hd c).1 = N - (d + 1) + c.1 :=
+  topIdx_val hd c
+
+end DiffusionSolution
+
+/-! Non-vacuity of `dm_solution`: two samples, oracle values tabulated so that everything is rational:
+`K0 = [[8, 1/2], [1/2, 15/4]]`, `p = (17/2, 17/4)`, `q = (36/289, 64/289)`, `s = (6/17, 8/17)`,
+`T = [[8/9, 1/12], [1/12, 15/16]]` with the orthonormal eigensystem `(4/5, −3/5) ↦ 119/144`, `(3/5, 4/5) ↦ 1`
+(`κ = 17/10`), `d = 1`. -/
+def exHeat2 : ℚ → ℚ := fun x => if x = -1 then 8 else if x = -4 then 1 / 2 else 15 / 4
+def exDist2 : Mat 2 2 ℚ := fun i j => (i.1 : ℚ) + (j.1 : ℚ) + 1
+def exSqrt2 : ℚ → ℚ := fun x => if x = 36 / 289 then 6 / 17 else if x = 64 / 289 then 8 / 17 else 0
+def exVf : Matrix (Fin 2) (Fin 2) ℚ := fun i j => if i = j then 4 / 5 else if i = 0 then 3 / 5 else -3 / 5
+
+example : ∀ i j, diffusionMatrix exHeat2 exSqrt2 exDist2 1 i j
+    = if i = j then (if i = 0 then 8 / 9 else 15 / 16) else 1 / 12 := by decide +kernel
+example : ∀ i, exSqrt2 (qVec exHeat2 exDist2 1 i) * exSqrt2 (qVec exHeat2 exDist2 1 i) = qVec exHeat2 exDist2 1 i := by
+  decide +kernel
+example : ∀ i, exSqrt2 (qVec exHeat2 exDist2 1 i) ≠ 0 := by decide +kernel
+example : (1 : Nat) + 1 ≤ 2 := by decide
+example : SpectralLocal.GenEigSystem (Mat.toM (diffusionMatrix exHeat2 exSqrt2 exDist2 1)) 1 exVf ![119 / 144, 1] :=
+  ⟨by decide +kernel, by decide +kernel, by decide +kernel⟩
+example : ∀ j : Fin 2, j.1 ≠ 2 - 1 → (![119 / 144, 1] : Fin 2 → ℚ) j ≠ 1 := by decide +kernel
+
 
 
 end TapkeeVerif.C09
